@@ -1,14 +1,10 @@
 #!/bin/sh
 # Builds the whole framework from files on disk (offline): Coq development
-# (full .vo build), extracted OCaml runner, Go harness commands.
+# (full .vo build), then per property the extracted OCaml runner and the Go
+# harness command (tools/buildall.py does what ./check does for one property).
 set -e
 cd "$(dirname "$0")"
 mkdir -p build/extracted build/bin build/tmp evidence replays
 ( cd coq && coq_makefile -f _CoqProject -o Makefile >/dev/null && make -j16 )
-( cd build/extracted && coqc -Q ../../coq ST ../../coq/Extract/Extract.v && cp ../../ocaml/driver.ml . \
-  && ocamlfind ocamlopt -O2 -w -a model.mli model.ml driver.ml -o ../runner )
-export GOFLAGS=-mod=mod GOPROXY=off GOEXPERIMENT=synctest
-unset GOSUMDB GOTOOLCHAIN || true
-cp /repo/go.sum harness/go.sum
-( cd harness && for d in cmd/*/; do n=$(basename "$d"); go build -tags verif -o ../build/bin/"$n" ./cmd/"$n" || echo "setup: harness $n did not build"; done )
+python3 tools/buildall.py
 echo setup done
